@@ -153,6 +153,8 @@ type c11Case struct {
 	Oracle []string `json:"oracle"`
 	Tags   []string `json:"tags"`
 	Site   string   `json:"site,omitempty"`
+
+	poisoned bool // a step or Close never returned; the database was abandoned
 }
 
 // ---------------------------------------------------------------- errors
@@ -997,6 +999,10 @@ type genState struct {
 	commitsRW int
 	bigDone   bool
 	tags      map[string]bool
+	nsteps    int
+	plan      []string // scripted tail of the case: fail, grow, reopen, check
+	planned   bool
+	forcePlan bool
 }
 
 func (g *genState) key(b *tree) hx {
@@ -1290,6 +1296,44 @@ func (g *genState) step(shadow *tree, idx int) step {
 	if idx == 0 {
 		return step{T: "tx", Kind: "update-ok", Ops: g.body(shadow, true, r.Range(4, 14))}
 	}
+	// Scripted tail (one case in six): a transaction that fails or panics,
+	// then an update that makes the file grow (the memory map has to be
+	// re-made, which waits for every open transaction), then close + reopen,
+	// then a last look.  A lock or transaction left behind by the failing
+	// step shows up here.
+	if !g.planned && g.nsteps >= 5 && idx == g.nsteps-4 {
+		g.planned = true
+		if r.Chance(1, 6) || g.forcePlan {
+			g.plan = []string{"fail", "grow", "reopen", "check"}
+			g.tags["fail_then_grow_then_reopen"] = true
+		}
+	}
+	if len(g.plan) > 0 {
+		what := g.plan[0]
+		g.plan = g.plan[1:]
+		switch what {
+		case "fail":
+			k := []string{"view-panic", "view-err", "update-panic", "update-err", "manual-rollback"}[r.Pick(4, 2, 2, 2, 1)]
+			return step{T: "tx", Kind: k, Ops: g.body(shadow, !readonly(k), r.Range(1, 5))}
+		case "grow":
+			top := mkhx([]byte("grow"))
+			ops := []op{{P: []hx{}, O: "mkif", K: &top}}
+			for i, n := 0, r.Range(14, 20); i < n; i++ {
+				k := mkhx([]byte{'g', byte(i)})
+				v := mkhx(bytes.Repeat([]byte{byte(r.Intn(256))}, r.Range(2500, 3500)))
+				ops = append(ops, op{P: []hx{top}, O: "put", K: &k, V: &v})
+			}
+			kind := "update-ok"
+			if r.Chance(1, 4) {
+				kind = "manual-commit"
+			}
+			return step{T: "tx", Kind: kind, Ops: ops}
+		case "reopen":
+			return step{T: "reopen"}
+		case "check":
+			return step{T: "tx", Kind: "view-ok", Ops: g.body(shadow, false, r.Range(1, 4))}
+		}
+	}
 	switch c := r.Pick(40, 5, 3, 2); {
 	case c == 1:
 		return step{T: "reopen"}
@@ -1316,18 +1360,54 @@ func (g *genState) step(shadow *tree, idx int) step {
 
 // ---------------------------------------------------------------- cases
 
+// stepDeadline bounds every database step (a transaction, a close+reopen, the
+// final Close).  A step that does not return within it means some lock of the
+// database was never released (for example a read transaction left open by a
+// panicking View blocks a file-growing commit and Close for ever): the case
+// is emitted with db_unusable_after_failure and the database is abandoned.
+var stepDeadline = 6 * time.Second
+
+// failName names a step after which "the database must still be usable".
+func failName(kind string) string {
+	switch kind {
+	case "view-panic":
+		return "panicking_view"
+	case "view-err":
+		return "failing_view"
+	case "update-panic":
+		return "panicking_update"
+	case "update-err":
+		return "failing_update"
+	case "manual-rollback":
+		return "rolled_back_tx"
+	}
+	return ""
+}
+
+func stepName(st step) string {
+	if st.T == "reopen" {
+		return "close"
+	}
+	n := "update"
+	switch {
+	case readonly(st.Kind):
+		n = "view"
+	case st.Kind == "manual-commit" || st.Kind == "manual-rollback":
+		n = "manual_tx"
+	}
+	if st.T == "overlap" {
+		n += "_under_reader"
+	}
+	return n
+}
+
 func runCase(dir string, seedR *gen.R, in *c11Input, g *genState, nsteps int) (c11Case, error) {
-	rn := &runner{dir: dir, file: filepath.Join(dir, "c11.db"), r: seedR, kinds: map[string]bool{}}
-	cs := c11Case{Oracle: []string{}, Tags: []string{}}
+	caseSeq++
+	rn := &runner{dir: dir, file: filepath.Join(dir, fmt.Sprintf("c11-%d.db", caseSeq)), r: seedR, kinds: map[string]bool{}}
+	cs := c11Case{Oracle: []string{}, Tags: []string{}, Site: "walletdb/bdb"}
 	if err := rn.open(true); err != nil {
 		return cs, err
 	}
-	defer func() {
-		if !rn.stuck {
-			rn.db.Close()
-		}
-		os.Remove(rn.file)
-	}()
 	rn.prev = &tree{Ents: []tentr{}}
 	tags := map[string]bool{}
 	var steps []step
@@ -1335,7 +1415,23 @@ func runCase(dir string, seedR *gen.R, in *c11Input, g *genState, nsteps int) (c
 		steps = in.Steps
 		nsteps = len(steps)
 	}
-	for i := 0; i < nsteps; i++ {
+	if g != nil {
+		g.nsteps = nsteps
+	}
+	lastFail := ""                  // the most recent failing / panicking step
+	kindsSoFar := map[string]bool{} // oracle kinds after the last completed step
+	poisoned := false
+	suffix := func() string {
+		if lastFail != "" {
+			return "_after_" + lastFail
+		}
+		return ""
+	}
+	type stepOut struct {
+		ob  stepObs
+		err error
+	}
+	for i := 0; i < nsteps && !poisoned; i++ {
 		var st step
 		if in != nil {
 			st = steps[i]
@@ -1343,11 +1439,27 @@ func runCase(dir string, seedR *gen.R, in *c11Input, g *genState, nsteps int) (c
 			st = g.step(rn.prev, i)
 		}
 		rn.released = false
-		ob, err := rn.runStep(st)
-		if err != nil {
-			return cs, fmt.Errorf("step %d (%s %s): %v", i, st.T, st.Kind, err)
+		ch := make(chan stepOut, 1)
+		go func() {
+			ob, err := rn.runStep(st)
+			ch <- stepOut{ob, err}
+		}()
+		var ob stepObs
+		select {
+		case o := <-ch:
+			if o.err != nil {
+				return cs, fmt.Errorf("step %d (%s %s): %v", i, st.T, st.Kind, o.err)
+			}
+			ob = o.ob
+		case <-time.After(stepDeadline):
+			// the step never returned: do not touch the runner any more
+			poisoned = true
+			kindsSoFar["db_unusable_after_failure"] = true
+			cs.Site = stepName(st) + suffix()
+			ob = stepObs{Ret: "other:blocked", Post: &tree{Ents: []tentr{}}}
+			tags["step_blocked"] = true
 		}
-		if rn.released {
+		if !poisoned && rn.released {
 			st.After = nil
 			tags["overlap_reader_released"] = true
 		}
@@ -1384,16 +1496,44 @@ func runCase(dir string, seedR *gen.R, in *c11Input, g *genState, nsteps int) (c
 				}
 			}
 		}
-		if rn.stuck {
+		if poisoned {
 			break
 		}
+		if rn.stuck { // the begin-and-commit probe after a failing step timed out
+			poisoned = true
+			cs.Site = "update_after_" + failName(st.Kind)
+		}
+		for k := range rn.kinds {
+			kindsSoFar[k] = true
+		}
+		if f := failName(st.Kind); f != "" && st.T != "reopen" {
+			lastFail = f
+		}
 	}
+	// Close under the same deadline: it waits for every open transaction.
+	if !poisoned {
+		done := make(chan error, 1)
+		go func() { done <- rn.db.Close() }()
+		select {
+		case err := <-done:
+			if err != nil {
+				return cs, fmt.Errorf("close: %v", err)
+			}
+			os.Remove(rn.file)
+		case <-time.After(stepDeadline):
+			poisoned = true
+			kindsSoFar["db_unusable_after_failure"] = true
+			cs.Site = "close" + suffix()
+			tags["close_blocked"] = true
+		}
+	}
+	cs.poisoned = poisoned
 	if g != nil {
 		for t := range g.tags {
 			tags[t] = true
 		}
 	}
-	for k := range rn.kinds {
+	for k := range kindsSoFar {
 		cs.Oracle = append(cs.Oracle, k)
 	}
 	sort.Strings(cs.Oracle)
@@ -1401,9 +1541,10 @@ func runCase(dir string, seedR *gen.R, in *c11Input, g *genState, nsteps int) (c
 		cs.Tags = append(cs.Tags, t)
 	}
 	sort.Strings(cs.Tags)
-	cs.Site = "walletdb/bdb"
 	return cs, nil
 }
+
+var caseSeq int
 
 // probeEmptyLeaf reproduces the reported bbolt behaviour: Prev stops at a leaf
 // page emptied earlier in the same transaction.
@@ -1432,21 +1573,27 @@ func main() {
 	probe := false
 	core.Main("c11", func(fs *flag.FlagSet) {
 		fs.BoolVar(&probe, "probe-emptyleaf", false, "also run the backward walk over a leaf page emptied in the same transaction")
+		fs.DurationVar(&stepDeadline, "step-deadline", stepDeadline, "a database step that does not return within this time counts as blocked")
 	}, func(c *core.Common, out *core.Emitter) error {
 		dir, err := os.MkdirTemp("", "vh-c11-")
 		if err != nil {
 			return err
 		}
 		defer os.RemoveAll(dir)
-		// a transaction that blocks for ever must not hang the check
-		watchdog := time.AfterFunc(10*time.Minute, func() {
+		// last resort only: every database step already runs under stepDeadline
+		watchdog := time.AfterFunc(8*time.Minute, func() {
 			fmt.Fprintln(os.Stderr, "c11: watchdog: harness blocked")
 			os.Exit(4)
 		})
 		defer watchdog.Stop()
 		or := gen.New(c.Seed, 1111) // oracle sampling
+		// A blocked step leaves a goroutine inside the database for good.  The
+		// case is emitted; later cases use fresh files, and after the second
+		// such case the run stops (normally, so that the driver reports it).
+		poisonedCases := 0
+		errStop := errors.New("stop")
 		if c.Replay != "" {
-			return core.ReadReplay(c.Replay, func(raw json.RawMessage) error {
+			err := core.ReadReplay(c.Replay, func(raw json.RawMessage) error {
 				var cs struct {
 					In c11Input `json:"in"`
 				}
@@ -1470,8 +1617,17 @@ func main() {
 				}
 				res.Tags = append(res.Tags, "replay")
 				out.Emit(res)
+				if res.poisoned {
+					if poisonedCases++; poisonedCases >= 2 {
+						return errStop
+					}
+				}
 				return nil
 			})
+			if err == errStop {
+				return nil
+			}
+			return err
 		}
 		if probe {
 			res, err := runCase(dir, or, probeEmptyLeaf(), nil, 0)
@@ -1485,11 +1641,23 @@ func main() {
 		r := gen.New(c.Seed, 11)
 		for i := 0; i < c.N; i++ {
 			g := &genState{r: r, tier: c.Tier, tags: map[string]bool{}}
-			res, err := runCase(dir, or, nil, g, r.Range(3, 12))
+			// the first cases of every run carry the scripted tail for sure
+			g.forcePlan = i < 6
+			n := r.Range(3, 12)
+			if g.forcePlan && n < 5 {
+				n = 5
+			}
+			res, err := runCase(dir, or, nil, g, n)
 			if err != nil {
 				return fmt.Errorf("case %d: %v", i, err)
 			}
 			out.Emit(res)
+			if res.poisoned {
+				if poisonedCases++; poisonedCases >= 2 {
+					fmt.Fprintln(os.Stderr, "c11: two cases blocked; stopping after", i+1, "cases")
+					return nil
+				}
+			}
 		}
 		return nil
 	})
